@@ -231,7 +231,22 @@ def head_of_line(ctx: Ctx):
     q_sc, queue = need["ChargeQueueing"]
     # only conditions on the vehicle can tell two vehicles of one queue (same station, same plug type) apart; a condition on
     # the station or the plug type alone fails for the whole queue at once and cannot reorder it
-    elig = sorted((d, pol) for d, pol in plug if not any(g in d for g in GRANT_ONLY) and "SELF.vehicle_id" in d)
+    # ... and so do conditions on WHERE the vehicle is: admission to the queue requires the vehicle to be in the station's cell
+    # (checked right here), a queued vehicle does not move, so all vehicles of one queue stand in the same cell
+    veh = "SIM.vehicles.get(SELF.vehicle_id)"
+    at_station = (f"{veh}.geoid != SIM.stations.get(SELF.station_id).geoid", False)
+    ctx.check(at_station in queue or (f"{veh}.geoid == SIM.stations.get(SELF.station_id).geoid", True) in queue, "D3", "GD.head-of-line",
+              "admission to the queue requires the vehicle to stand in the station's cell (so location cannot tell queued vehicles apart)", q_sc.enter,
+              why_bad="ChargeQueueing.enter admits vehicles that are elsewhere: location conditions of the plug grant can then reorder the queue", construct="head-of-line:queue-location")
+
+    def vehicle_dependent(d: str) -> bool:
+        core = d[len("$isnone("):-1] if d.startswith("$isnone(") else d
+        if core.startswith("SIM.vehicle_at_"):
+            return False  # the state's own "is this vehicle at that entity" predicates
+        rest = d.replace(f"{veh}.geoid", "").replace(f"{veh}.position", "")
+        return "SELF.vehicle_id" in rest
+
+    elig = sorted((d, pol) for d, pol in plug if not any(g in d for g in GRANT_ONLY) and vehicle_dependent(d))
     ctx.require(len(elig) >= 4, f"ChargingStation.enter: only {len(elig)} eligibility conditions recognised")
     for d, pol in elig:
         if d.startswith("$isnone(") and ((d[len("$isnone("):-1], not pol) in plug or (d[len("$isnone("):-1], True) in plug):
